@@ -492,6 +492,7 @@ const (
 	motifManyRevs
 	motifSubdocShapes
 	motifXattrView
+	motifShortXattrs
 	numMotifs
 )
 
@@ -693,6 +694,20 @@ func genMotif(r *rand.Rand, m int, in *kvInput, exists map[string]bool, hot []st
 		in.Ops = append(in.Ops, Step{Kind: "expire", Clock: next()})
 		kv(read())
 		kv(inserter())
+	case motifShortXattrs:
+		// a document whose whole xattrs column is a very short JSON object (eight bytes: {"u1":5}), queried by that xattr
+		kv(deleter())
+		in.Ops = append(in.Ops, Step{Kind: "purge", Handle: h, Clock: next()})
+		one := pick(r, []string{"5", "7", "5", "0"})
+		kv(&KOp{Kind: "WriteWithXattrs", CasMode: "zero", Val: sp(pick(r, jsonBodies)), Xs: []XKV{{Name: "u1", Val: &one}}})
+		in.Ops = append(in.Ops, Step{Kind: "query", Coll: cn, Handle: h, Q: "QUser", Clock: next()})
+		if r.Intn(2) == 0 {
+			kv(bodyWrite())
+			in.Ops = append(in.Ops, Step{Kind: "query", Coll: cn, Handle: r.Intn(in.Handles), Q: pick(r, []string{"QUser", "QSync", "QBodies"}), Clock: next()})
+		}
+		two := pick(r, xattrVals)
+		kv(&KOp{Kind: "SetXattrs", Xs: []XKV{{Name: pick(r, []string{"u1", "_sync"}), Val: &two}}})
+		in.Ops = append(in.Ops, Step{Kind: "query", Coll: cn, Handle: h, Q: "QUser", Clock: next()})
 	case motifXattrView:
 		// a view over meta.xattrs, and documents whose xattrs have different names, written between two queries:
 		// each document is mapped with ITS xattrs
